@@ -16,23 +16,25 @@ type Profile struct {
 	// IfaceTypeOnly: interface-typed parameters and results are type-only (the redefine profiles: a value handed to a
 	// redefined function is passed on under its dynamic type, which a NAMED interface parameter does not accept)
 	IfaceTypeOnly bool
-	Names         []string
-	Subs          []string
-	MaxIn         int // per converter
-	MaxOut        int
-	MaxTIn        int // target
-	MaxInputs     int
-	MaxConvs      int
-	Forms         []string
-	FailProb      float64
-	OnceProb      float64
-	MultiMax      int // max number of converters with >1 input (-1 = unlimited)
-	Modes         []string
-	GenProb       float64
-	DefProb       float64
-	BadProb       float64
-	DupInputs     bool // allow repeated input keys
-	TargetOuts    int
+	// OnceTarget: the target is a run-once function
+	OnceTarget bool
+	Names      []string
+	Subs       []string
+	MaxIn      int // per converter
+	MaxOut     int
+	MaxTIn     int // target
+	MaxInputs  int
+	MaxConvs   int
+	Forms      []string
+	FailProb   float64
+	OnceProb   float64
+	MultiMax   int // max number of converters with >1 input (-1 = unlimited)
+	Modes      []string
+	GenProb    float64
+	DefProb    float64
+	BadProb    float64
+	DupInputs  bool // allow repeated input keys
+	TargetOuts int
 }
 
 var Profiles = map[string]Profile{
@@ -66,6 +68,9 @@ var Profiles = map[string]Profile{
 	"redefsub": {Types: []string{"T1", "T2"}, Names: []string{"a", "a", "a", ""}, Subs: []string{"", "", "x"},
 		MaxIn: 1, MaxOut: 1, MaxTIn: 1, MaxInputs: 2, MaxConvs: 2, Forms: []string{"pos", "struct", "ptr", "built"}, FailProb: 0, OnceProb: 0.4,
 		MultiMax: 0, Modes: []string{"redefine"}, TargetOuts: 1},
+	"onceredef": {Types: []string{"T1", "T2", "T3"}, Names: []string{"", "", "a"}, Subs: []string{""},
+		MaxIn: 1, MaxOut: 1, MaxTIn: 2, MaxInputs: 2, MaxConvs: 2, Forms: []string{"pos", "struct", "ptr"}, FailProb: 0, OnceProb: 0.3,
+		MultiMax: 0, Modes: []string{"redefine"}, TargetOuts: 1, OnceTarget: true},
 	"redeffail": {Types: []string{"T1", "T2", "T3", "T4"}, Names: []string{"", "", "a", "b"}, Subs: []string{""},
 		MaxIn: 1, MaxOut: 1, MaxTIn: 2, MaxInputs: 2, MaxConvs: 4, Forms: []string{"pos", "struct", "ptr"}, FailProb: 0.3, OnceProb: 0.1,
 		MultiMax: 0, Modes: []string{"redefine"}, TargetOuts: 2},
@@ -219,7 +224,7 @@ func (p Profile) Random(r *rand.Rand, sid int) Scenario {
 		s := Scenario{Sid: sid, Mode: pick(r, p.Modes), Family: "random/" + p.Name}
 		tin := p.MaxTIn
 		s.Target = p.fn(r, tin, p.TargetOuts, true)
-		s.Target.Once = false
+		s.Target.Once = p.OnceTarget // (only the "onceredef" profile makes the target itself a run-once function)
 		s.Target.NilOut = false
 		if s.Mode == "convert" || s.Mode == "convcall" {
 			l := Label{Type: pick(r, append(append([]string{}, p.Types...), p.Ifaces...))}
